@@ -39,12 +39,13 @@ def main():
                         continue
                     shown = {}
                     for d in ast.members:
-                        if d.kind == "class" and d.pyname in ("SubA", "SubB"):
+                        if d.kind == "class" and d.pyname in ("SubA", "SubB", "SubC", "SubD"):
                             for m in d.members:
-                                if m.pyname == "shared":
-                                    shown[d.pyname] = json.dumps([[q["pyname"], q["type"], q["default"]] for q in m.params], sort_keys=True)
-                    if len(shown) == 2:
-                        rec["same"].append({"a": shown["SubA"], "b": shown["SubB"]})
+                                if m.pyname == "shared":      # parameters and the markers in front of the member
+                                    shown[d.pyname] = json.dumps([[[q["pyname"], q["type"], q["default"]] for q in m.params], sorted(m.todos)], sort_keys=True)
+                    for other in sorted(shown):
+                        if other != "SubA" and "SubA" in shown:
+                            rec["same"].append({"a": shown["SubA"], "b": shown[other]})
     except Exception as e:  # noqa: BLE001
         import traceback
         rec["error"] = f"{type(e).__name__}: {e} :: {traceback.format_exc()[-600:]}"
